@@ -70,6 +70,17 @@ def handle (line : String) : String :=
     match kindOf k, opsOf ops, (if obs = "-" then some [] else obs.toList.mapM resOf) with
     | some k, some ops, some obs => monitor k ops obs
     | _, _, _ => "bad-op"
+  -- `first`: the same calls as `seq`, made as the very first settlements of a fresh process while other goroutines settle
+  -- other messages at the same moment; what one message promises does not depend on that
+  | "M" :: "first" :: k :: ops :: [] =>
+    match kindOf k, opsOf ops with
+    | some k, some ops => dash (String.ofList ((run (initSt k) ops).2.map resChar))
+    | _, _ => "bad-op"
+  | "P" :: "first" :: k :: ops :: "##" :: obs :: [] =>
+    if obs.contains 'B' then "violated:never_blocks(a call did not return within the watchdog bound)" else
+    match kindOf k, opsOf ops, (if obs = "-" then some [] else obs.toList.mapM resOf) with
+    | some k, some ops, some obs => monitor k ops obs
+    | _, _, _ => "bad-op"
   | "M" :: "hist" :: k :: evs =>
     match kindOf k, evs.mapM parseEv with
     | some k, some evs =>
